@@ -124,7 +124,7 @@ pub fn run(run: &Run) {
     );
     run.assume("the blocking reader on an always-ready source is the reference (its own conformance is C07); streams on which it panics are attributed to C07, not compared");
     run.regressions(&replay);
-    run.random("poll-schedules", run.cases(40_000, 800_000), 0.2, strategy, check);
+    run.random("poll-schedules", run.cases(60_000, 1_000_000), 0.2, strategy, check);
 }
 
 pub fn replay(_section: &str, case: &Json) -> Option<CheckResult> {
